@@ -28,7 +28,7 @@ type ExponentialBackoff struct {
 
 // NewExponentialBackoff creates new ExponentialBackoff.
 func NewExponentialBackoff(initialDelayMillis, maxDelayMillis int64, multiplier float64) (b *ExponentialBackoff, err error) {
-	if multiplier <= 1 {
+	if !(multiplier > 1) { // also rejects NaN
 		err = fmt.Errorf("multiplier: %.3f (expected: > 1.0)", multiplier)
 	} else if initialDelayMillis < 0 {
 		err = fmt.Errorf("initialDelayMillis: %d (expected: >= 0)", initialDelayMillis)
